@@ -1361,6 +1361,88 @@ func runC16(c *Ctx) {
 
 // ---- C17 ----
 
+// c17DeepChains: work size - many goroutines, each expanding its OWN document (nothing is shared) in which
+// definitions refer to each other in a long acyclic chain: every call returns what it returns alone, whatever the
+// others are doing (no budget, counter or table is common to the calls).
+func c17DeepChains(c *Ctx) {
+	mk := func(tag string, depth int) string {
+		var sb strings.Builder
+		sb.WriteString(`{"swagger":"2.0","info":{"title":"t","version":"1"},"paths":{},"definitions":{`)
+		for i := 0; i < depth; i++ {
+			if i > 0 {
+				sb.WriteString(",")
+			}
+			if i == depth-1 {
+				fmt.Fprintf(&sb, `"d%d":{"type":"string","description":%s}`, i, quoteJSON(tag))
+			} else {
+				fmt.Fprintf(&sb, `"d%d":{"type":"object","properties":{"next":{"$ref":"#/definitions/d%d"}}}`, i, i+1)
+			}
+		}
+		sb.WriteString("}}")
+		return sb.String()
+	}
+	run := func(doc string, cont bool) string {
+		var sw spec.Swagger
+		if err := json.Unmarshal([]byte(doc), &sw); err != nil {
+			return "decode: " + err.Error()
+		}
+		if err := spec.ExpandSpec(&sw, &spec.ExpandOptions{RelativeBase: "file:///v/deep/root.json", ContinueOnError: cont}); err != nil {
+			return "error: " + err.Error()
+		}
+		d0 := sw.Definitions["d0"]
+		b, _ := json.Marshal(&d0)
+		return string(b)
+	}
+	defer runtime.GOMAXPROCS(runtime.GOMAXPROCS(0))
+	for round := 0; round < c.N(1, 6); round++ {
+		runtime.GOMAXPROCS([]int{16, 8, 4}[round%3])
+		n, depth := []int{32, 48, 64}[round%3], []int{64, 48, 32}[round%3]
+		docs := make([]string, n)
+		alone := make([]string, n)
+		for i := range docs {
+			docs[i] = mk(fmt.Sprintf("leaf of document %d", i), depth)
+			alone[i] = run(docs[i], i%2 == 1)
+		}
+		outs := make([]string, n)
+		var wg sync.WaitGroup
+		start := make(chan struct{})
+		for i := 0; i < n; i++ {
+			wg.Add(1)
+			go func(i int) {
+				defer wg.Done()
+				<-start
+				for k := 0; k < 2; k++ {
+					if o := run(docs[i], i%2 == 1); o != alone[i] || outs[i] == "" {
+						outs[i] = o
+					}
+				}
+			}(i)
+		}
+		close(start)
+		_, hang := timed(120*time.Second, func() { wg.Wait() })
+		c.Count(fmt.Sprint("deep-chains", round, n, depth), true)
+		c.Hit("scenario:deep-chains")
+		cs := map[string]interface{}{"scenario": "goroutines expanding their own documents, definitions chained", "goroutines": n, "chain_length": depth, "round": round}
+		if hang {
+			c.Fail(Failure{Kind: "crash", Sig: "C17:deadlock", What: "concurrent expansions of independent documents did not finish within 120 s", Case: cs})
+			return
+		}
+		for i := range outs {
+			if outs[i] != alone[i] {
+				c.Fail(Failure{Kind: "oracle", Sig: "C17:concurrent-result-differs", What: fmt.Sprintf("expansion of an independent document (chain of %d definitions) run beside %d others gives %s; alone it gives %s", depth, n-1, short(outs[i], 400), short(alone[i], 200)), Case: cs})
+				break
+			}
+		}
+	}
+}
+
+func short(s string, n int) string {
+	if len(s) > n {
+		return s[:n] + "…"
+	}
+	return s
+}
+
 // c17FreshSharedCache: many short rounds; in each, goroutines released together make their FIRST calls on one fresh
 // cache of the package's own type, without a root and without a location (the calls that install the pseudo root),
 // following absolute references: no call hangs, each returns what it returns alone, the cache is usable afterwards.
@@ -1438,6 +1520,7 @@ func c17FreshSharedCache(c *Ctx) {
 func runC17(c *Ctx) {
 	c.Res.Rule = "N in {2,4,8,16} goroutines under GOMAXPROCS in {1,2,4,16}, binary built with -race: (A) concurrent ExpandSpec of distinct worlds without a cache, (B) concurrent ExpandSchemaWithBasePath of the definitions of one world sharing one instrumented cache, (C) concurrent json.Marshal and JSON-pointer lookups on one shared decoded document; oracle: every call returns what it returns alone (by meaning for cyclic graphs), no deadlock (watchdog), no race report; the global trace of (B) is checked by the model's multi-thread validator and replayed through the model's scheduler under the observed schedule; non-trivial = scenario with at least two goroutines touching a common document; distinct by scenario text"
 	c17FreshSharedCache(c)
+	c17DeepChains(c)
 	rounds := c.N(10, 120)
 	procs := []int{1, 2, 4, 16}
 	ns := []int{2, 4, 8, 16}
